@@ -659,7 +659,7 @@ func (h *hist) do(act string) bool {
 		ret = "panic"
 	} else if strings.HasPrefix(out, "H") {
 		rootHash = common.HexToHash(out[1:])
-		ret = h.class(rootHash)
+		ret = h.class(rootHash) + ":" + common.Bytes2Hex(rootHash[:]) // content class and the real 32-byte root
 		isRoot = f[0] == "rt" || f[0] == "cm"
 	} else {
 		ret = out
